@@ -674,6 +674,34 @@ def l19(ctx, rid):
     c10.b21(ctx, rid)
 
 
+def l20(ctx, rid):
+    """the worker takes one request at a time and an error of one request never costs another: no function of the worker module
+    drains several requests from the channel (`try_recv`, `recv_many`) before handling them - with a `?` in the handling loop
+    every request drained after a failing one (a sync request behind an inapplicable create) is silently dropped"""
+    prog = ctx.prog
+    n = 0
+    bad = None
+    for f in prog.fns.values():
+        if f.file != WORKER_FILE:
+            continue
+        n += 1
+        for c in f.calls:
+            if c.bb in f.reachable() and c.name in ('try_recv', 'recv_many', 'blocking_recv_many') and 'Receiver' in c.path:
+                bad = c
+    if n < 10:
+        raise core.AnchorLost('functions in the worker module: %d' % n)
+    if bad:
+        ctx.bad(rid, 'one-request-at-a-time', bad.where(), 'the worker drains queued requests with `%s` before handling them: a request that fails makes the `?` of the handling loop discard the ones taken after it' % bad.name)
+    else:
+        ctx.ok(rid, 'one-request-at-a-time', '', 'no batch receive in %d worker functions' % n, nontrivial=False, queries=n)
+
+
+def l21(ctx, rid):
+    """C15.A13 instance: an underflow in memory_used() panics inside the worker (force-update statistics) and ends maintenance"""
+    import props.c15 as c15
+    c15.a13(ctx, rid)
+
+
 RULES = [
     Rule('C13.L1', 'the worker loop is only left through the Stop arm (recv() == None) and contains no reachable panic written in the worker module', l1, 4),
     Rule('C13.L3', 'one channel, Sender never cloned, stored only in the Running state, dropped before the worker handle is awaited', l3, 4),
@@ -691,6 +719,8 @@ RULES = [
     Rule('C13.L17', 'every successful initialisation has launched the maintenance worker', l17, 1),
     Rule('C13.L18', 'the maintenance worker waits for the locks it needs (no try-lock that drops a request under load)', l18, 1),
     Rule('C13.L19', 'push of the closed-blob tree counts slots, never occupied children (C10.B21 instance)', l19, 1),
+    Rule('C13.L20', 'the worker takes one request at a time (no batch receive whose handling loop can drop requests)', l20, 1),
+    Rule('C13.L21', 'the allocation counter of a reloaded index is seeded from vector capacities (C15.A13 instance)', l21, 1),
     Rule('C13.L15', 'the blob id counter is never given back: a creation failure bound to one file name cannot repeat for ever (C07.H6 instances)', l15, 3),
     Rule('C13.L8', 'request-pending / in-progress flags are released on every path of their handler (C12.S8 instances)', l8, 1),
 ]
